@@ -239,6 +239,16 @@ const WORDS: [&str; 24] = [
     "a", "b", "key", "value", "foo", "bar", "x1", "0", "42", "-1", "3.14", "true", "null", "~",
     "yes", "0x1F", "1e3", ".inf", "hello world", "a b c", "http://x.y/z?q=1", "a:b", "-x", "é",
 ];
+/// Numbers at and around the limits of the integer and float types the code may parse them
+/// into, and malformed numeric forms (an exponent without digits, a lone sign, several dots).
+pub const NUMBERS: [&str; 60] = [
+    "0", "1", "9", "10", "99", "127", "128", "255", "256", "999", "1024", "32767", "32768", "65535", "65536", "99999", "999999999", "1000000000",
+    "2147483647", "2147483648", "4294967295", "4294967296", "9999999999", "10000000000", "99999999999", "9223372036854775807",
+    "9223372036854775808", "18446744073709551615", "18446744073709551616", "99999999999999999999", "340282366920938463463374607431768211456",
+    "-1", "-128", "-129", "-2147483649", "-9223372036854775808", "-9223372036854775809", "+1", "+", "-", "1e3", "1e+3", "1E-3", "1e", "1e+", "1e-",
+    ".5", "5.", ".", "..", "1.2.3", "1e308", "1e309", "1e-400", "0x7FFFFFFFFFFFFFFF", "0xFFFFFFFFFFFFFFFFF", "0o1777777777777777777777", "0x", "1_000", "-.inf",
+];
+
 const NONASCII: [&str; 8] = ["é", "ß", "中", "日本", "😀", "\u{85}", "\u{2028}", "ü"];
 
 impl<'a> Gen<'a> {
@@ -565,6 +575,9 @@ impl<'a> Gen<'a> {
                     "\n---a", "\n....", "\0", "\r", "\u{feff}",
                     // escape mechanisms with multi-byte / truncated values
                     "%C3%A9", "%E2%82%AC", "%F0%9F%98%80", "%21", "%", "%C3", "!%C3%A9 ", "!<%E2%82%AC> ", "\\U0001F600", "\\u00e9", "\\x", "\\u12",
+                    // numbers at type limits (as directive versions, indentation indicators, scalars, escapes)
+                    "%YAML 1.4294967296\n", "%YAML 4294967295.9999999999\n", "%YAML 1.99999999999999999999\n", "9223372036854775808", "18446744073709551616",
+                    "4294967296", "65536", "1e+", "0x", "\\U7FFFFFFF", "\\UFFFFFFFF", "\\U00110000", "\\uD800", "\\xFF", "|99999999999\n", ">4294967296\n",
                     // directives after an explicit document end
                     "...\n%YAML 1.2\n", "...\n%YAML 1.2\n%YAML 1.2\n---\n", "...\n%TAG !e! x\n",
                 ];
@@ -681,6 +694,9 @@ impl<'a> Gen<'a> {
                 s.push((b'a' + ((i * 7 + len) % 26) as u8) as char);
             }
             return s;
+        }
+        if self.r.chance(1, 25) {
+            return (*self.r.pick(&NUMBERS)).to_string();
         }
         if self.r.below(1000) < u64::from(self.sw.nonascii) {
             let mut s = String::new();
@@ -851,6 +867,8 @@ impl<'a> Gen<'a> {
             } else {
                 out.push_str(&format!("{chomp}{ind_ind}"));
             }
+        } else if self.r.chance(1, 40) {
+            out.push_str(*self.r.pick(&["0", "10", "99", "00", "1+1", "+-", "9999999999", "4294967296"]));
         } else {
             out.push_str(chomp);
         }
@@ -1135,6 +1153,12 @@ impl<'a> Gen<'a> {
                 // documents that use !e! without it are valid only under keep_tags(true)
                 doc.push_str(*self.r.pick(&["%TAG !e! tag:e.com,2000:\n", "%TAG !e! !local-\n", "%YAML 1.2\n%TAG !e! tag:e.com,2000:\n"]));
                 self.e_handle = true;
+                explicit = true;
+            } else if self.r.chance(1, 40) {
+                // %YAML with version components at and around integer limits
+                let a = *self.r.pick(&NUMBERS);
+                let b = *self.r.pick(&NUMBERS);
+                doc.push_str(&format!("%YAML {a}.{b}\n"));
                 explicit = true;
             } else if self.r.chance(1, 10) {
                 doc.push_str(*self.r.pick(&[
